@@ -336,9 +336,15 @@ func (a *actorState) exec(ctx context.Context, spec opSpec) {
 		pv := ps[spec.a%len(ps)]
 		ip := nthIP(pv.cidr, spec.b%poolSize(pv.cidr))
 		h := a.handleFor(spec.c, spec.flag)
+		hp := strPtr(h)
+		if spec.d == 1 || (w.fifo && spec.d == 2) {
+			// an allocation without a handle id (legal: the handle is optional for AssignIP)
+			h, hp = "", nil
+			w.r.Probe("assignip_without_handle")
+		}
 		op := a.begin(opAssignIP, fmt.Sprintf("AssignIP(%s handle=%s)", ip, h))
 		op.handle, op.ip, op.handles = h, ip.String(), []string{h}
-		err := a.client.AssignIP(ctx, ipam.AssignIPArgs{IP: cnet.IP{IP: ip}, HandleID: strPtr(h), Hostname: a.host, Attrs: map[string]string{"pod": h}})
+		err := a.client.AssignIP(ctx, ipam.AssignIPArgs{IP: cnet.IP{IP: ip}, HandleID: hp, Hostname: a.host, Attrs: map[string]string{"pod": h}})
 		if err == nil && !a.sa.Crashed {
 			a.ack(op, ip.String(), h)
 			a.acquired = append(a.acquired, acquired{ip: ip.String(), handle: h})
